@@ -17,6 +17,7 @@ EXPLANATION = (
     "C08.E3 (A5 by edge removal): at the object-member sink `name != \"_sd\"`, `name != \"...\"` and contains_key(out, name)==false hold on every path. "
     "C08.E4: the unpacking call is dominated by `_sd_alg` absent or equal to \"sha-256\". "
     "C08.E5: every digest operand is the as_str()-Some of a JSON value (else Err) and an array placeholder reaches the lookup only with exactly one member."
+    " C08.E3 also (completeness): no copy of a plain member into the object under construction is reachable after the place where the `_sd` digests are applied, so the DuplicateKey check sees every plain member."
 )
 ASSUMPTIONS = [
     "value-level agreement with the specification's algorithm on well-formed inputs is not decided; each listed MUST-reject is shown to be a guard on every accepting path",
